@@ -86,6 +86,13 @@ def run(ctx):
         total["nontrivial"] += psumm["nontrivial"]
         for m in mism:
             ctx.violation("search:wildcard:%s:%s" % (fam, m.get("path")), m, what="the tokens a wildcard filter selects differ from the glob reference (Pattern.tla)")
+    # fractions are consulted or skipped by their time range (borders, per-minute occupancy bitmap of sealed fractions
+    # with late documents): TimePrune.tla's real stores (C14's module), search answers only
+    from checks import c14
+    tsumm = c14.timeprune_e2e_stage(ctx, "search", quick, what_filter=lambda w: "fetch" not in w)
+    total["cases"] += tsumm["cases"]
+    total["evals"] += tsumm["evals"]
+    total["nontrivial"] += tsumm["nontrivial"]
     ctx.cov["traces_validated_against_impl"] = total["cases"]
     ctx.cov["evaluations"] = total["evals"]
     ctx.cov["distinct_nontrivial"] = total["nontrivial"]
